@@ -432,6 +432,14 @@ func runC16(c *Ctx) {
 			if _, err := hsms.NewDataMessage(1, 1, true, 0, [4]byte{}, secs2.L(secs2.A("x"), secs2.L(it))); err == nil {
 				c.Violate("property", "errored-item-accepted-by-message", "NewDataMessage accepted a list with a nested errored item", replay)
 			}
+			// the header-based constructor is a message constructor too (added after seeded change C16f-2)
+			hdr := [10]byte{0, 0, 0x81, 1, 0, 0, 0, 0, 0, 7}
+			if m, err := hsms.NewDataMessageFromHeader(hdr, it); err == nil {
+				c.Violate("property", "errored-item-accepted-by-message", fmt.Sprintf("NewDataMessageFromHeader accepted an item with a non-nil Error(); it would be written as % x", m.ToBytes()), replay)
+			}
+			if m, err := hsms.NewDataMessageFromHeader(hdr, secs2.L(secs2.A("x"), secs2.L(it))); err == nil {
+				c.Violate("property", "errored-item-accepted-by-message", fmt.Sprintf("NewDataMessageFromHeader accepted a list with a nested errored item; it would be written as % x", m.ToBytes()), replay)
+			}
 		}
 		if ans != nil && ans[i] != got {
 			// The model is the property's reading of the constructors (clamp to the nearest bound, documented error classes).
@@ -595,6 +603,9 @@ func c16Lists(c *Ctx) {
 		}
 		if errNonNil == (merr == nil) {
 			c.Violate("property", "errored-item-accepted-by-message", fmt.Sprintf("tree %s: Error()!=nil=%v but NewDataMessage err=%v", k.tok, errNonNil, merr), replay)
+		}
+		if _, herr := hsms.NewDataMessageFromHeader([10]byte{0, 0, 0x81, 1, 0, 0, 0, 0, 0, 7}, k.it); errNonNil == (herr == nil) {
+			c.Violate("property", "errored-item-accepted-by-message", fmt.Sprintf("tree %s: Error()!=nil=%v but NewDataMessageFromHeader err=%v", k.tok, errNonNil, herr), replay)
 		}
 		if secs2.Equal(k.it, k.it) == errNonNil {
 			c.Violate("property", "errored-item-equal", fmt.Sprintf("tree %s: Equal(x,x)=%v with Error()!=nil=%v", k.tok, !errNonNil, errNonNil), replay)
